@@ -183,7 +183,7 @@ def _lineage_prefix(q, p):
 def strategy(tier):
     rec = st.builds(
         lambda t, m: {"k": "record", "type": t, "merge": m},
-        st.sampled_from(["MA", "MA", "MB", "MC", "MF"]),
+        st.sampled_from(["MA", "MA", "MB", "MC", "MF", "MA2", "MA2"]),
         st.sampled_from(["default", "replace", "concat", "concat", "sum", "raising"]),
     )
     sleep = st.builds(lambda t: {"k": "sleep", "t": t}, st.sampled_from([0.25, 0.5, 1]))
